@@ -63,6 +63,9 @@ struct Run{
   bool setup_state(const Json& cfg){
     std::string gk=cfg["grid"].as_str("lin"); double a=cfg["xa"].as_num(1.0),b=cfg["xb"].as_num(2.0);
     if(!(b>a)) b=a+1.0;
+    // the grid may be given in tiny units: strictly increasing is all that is required of it, absolute spacings of 1e-18 included
+    double gscale=cfg["grid_scale"].as_num(1.0); if(!(gscale>0)||gk=="log") gscale=1.0; a*=gscale; b*=gscale;   // (a logarithmic grid has a documented lower limit for its first node)
+    if(gscale!=1.0) c.ctr->add("probe_grid_in_tiny_units");
     int rc=CALL_OK;
     if(nx>=2){
       if(gk=="user"){
@@ -81,7 +84,7 @@ struct Run{
         for(unsigned i=1;i<nx;i++) if(!(xs[i]>xs[i-1])) xs[i]=xs[i-1]+1e-3*(b-a);
         rc=lib_call([&]{ live->Set_xrange(xs); });
       }else{
-        if(gk=="log"&&a<1e-6) a=0.5;
+        if(gk=="log"&&a<1e-6*gscale) a=0.5*gscale;
         rc=lib_call([&]{ live->Set_xrange(a,b,gk=="log"?"log":"linear"); });
       }
     }else rc=lib_call([&]{ live->Set_xrange(a,a,"linear"); });
@@ -620,6 +623,12 @@ struct Run{
       s2.Evolve(tau);      // no numerics: only the clock advances
       if(mirror){ squids::SU_vector opm(oc); std::vector<bool> avr(d2*(d2-1)/2+1); SimSolver* keep=c.live;
         double junk=avg?live->GetExpectationValueD(opm,0,xq,1e9,avr):live->GetExpectationValueD(opm,0,xq); (void)junk; (void)keep; }
+      else if(nx>=2){
+        // the first solver has used the same form of query on this thread before the second one does: whatever scratch that form keeps per thread
+        // was last shaped by a solver of another dimension
+        std::vector<double> om(nsun*nsun,0.25); squids::SU_vector opm(om); std::vector<bool> avr(nsun*(nsun-1)/2+1); double xm=0.5*(grid.front()+grid.back());
+        double junk=avg?live->GetExpectationValueD(opm,0,xm,1e9,avr):live->GetExpectationValueD(opm,0,xm); (void)junk;
+      }
       squids::SU_vector opv(oc);
       if(avg){ std::vector<bool> avr(d2*(d2-1)/2+1); got=s2.GetExpectationValueD(opv,0,xq,1e9,avr); }
       else got=s2.GetExpectationValueD(opv,0,xq);
@@ -731,6 +740,7 @@ struct SolverEngine: Engine{
     static const int nxw[]={1,1,2,2,2,3,3,4,5,9}; int nx=nxw[r.below(10)]; if(want_grid&&nx<2) nx=2+(int)r.below(3);
     c["nx"]=nx; c["nsun"]=(int)r.weighted({0,0,25,30,20,13,12}); c["nrhos"]=(int)r.weighted({0,55,30,15}); c["nscalars"]=(int)r.weighted({40,30,20,10});
     c["t0"]=r.chance(0.5)?0.0:r.uniform(-3,5); c["seed"]=(long long)r.below(1000000);
+    c["grid_scale"]=r.chance(0.06)?1e-17:1.0;
     int gk=(int)r.weighted({50,25,25}); c["grid"]=gk==0?"lin":(gk==1?"log":"user"); c["grid_shape"]=(int)r.below(4); c["xa"]=r.uniform(0.5,2.0); c["xb"]=r.uniform(2.5,6.0);
     return c;
   }
